@@ -250,6 +250,22 @@ def check(ctx):
     gdr = model.func("apischema.dependencies.get_dependent_required")
     ctx.check("map(get_field_name, required)" in norm(gdr.node) or "get_field_name(req" in norm(gdr.node), "C03.R8", f"{gdr.qualname}:reader", None, "get_dependent_required no longer maps get_field_name over the registered collection (reader of the shape changed)", gdr, gdr.node, detail="map(get_field_name, required)")
 
+    # ---- R9: constructors of the library's own object classes
+    ctx.rule("C03.R9", "the object node builds instances with cls(**values): for a class the library itself defines (TaggedUnion), a constructor raising ValueError / TypeError on a condition over the given values lets that exception out of deserialize whenever the structural checks do not exclude the condition", floor=1)
+    tu = model.func("apischema.tagged_unions.TaggedUnion.__init__")
+    from ..pathcond import parents_of as _po9, path_condition as _pc9
+    pm9 = _po9(tu.node)
+    kw9 = tu.node.args.kwarg.arg if tu.node.args.kwarg else None
+    ctx.require(kw9 is not None, "TaggedUnion.__init__ no longer takes **kwargs")
+    for r in walk_no_nested(tu.node):
+        if isinstance(r, ast.Raise) and r.exc is not None and "ValidationError" not in norm(r.exc):
+            cond = _pc9(tu.node, r, pm9)
+            if cond is not None and any(isinstance(x, ast.Name) and x.id == kw9 for x in ast.walk(cond)) and "len(" in norm(cond):
+                ctx.fail("C03.R9", f"{tu.qualname}:arity", None,
+                         f"`{short(r, 60)}` under `{norm(cond)}`: the only structural guard is the schema `minProperties: 1, maxProperties: 1`, which counts every property of the datum, not the tags that were deserialized - an additional property ({{'zzz': 1}} with additional_properties=True), a tag dropped by fall_back_on_default, or a class-level schema(...) replacing the registered one give zero or two values and the {norm(r.exc).split('(')[0]} escapes",
+                         tu.module.relpath, r.lineno)
+    ctx.ok("C03.R9", f"{tu.qualname}:analysed", "raises of the constructor examined", True, tu.loc)
+
     # ---- R5: build-time name tables
     ctx.rule("C03.R5", "names from dependent_required are looked up in the operation's field table only under a membership guard (no KeyError for fields skipped for the operation)", floor=3)
     nametable_rule(ctx, "C03.R5")
